@@ -447,6 +447,16 @@ impl Context {
             }
         }
 
+        // the error of the root task is the error of the process:
+        // take it over before the task event stores the process row
+        if let NodeContent::Workflow(_) = &task.node().content {
+            if task.state().is_error() {
+                if let Some(err) = task.err() {
+                    self.proc.set_pure_err(&err);
+                }
+            }
+        }
+
         self.runtime.scher().emit_task_event(task)?;
 
         // on workflow complete
